@@ -362,9 +362,10 @@ class pcovar(ParametricSpectrum):
 
     def __call__(self):
         from spectrum import arma2psd
-        ar, _e = arcovar(self.data, self.ar_order)
+        ar, e = arcovar(self.data, self.ar_order)
         self.ar = ar
-        psd = arma2psd(A=ar, T=self.sampling, NFFT=self.NFFT)
+        self.rho = e
+        psd = arma2psd(A=ar, rho=e, T=self.sampling, NFFT=self.NFFT)
 
         if self.datatype == 'real':
             if self.NFFT % 2 == 0:
